@@ -1,5 +1,6 @@
 import functools
 import operator
+import threading
 from collections import defaultdict
 from functools import reduce
 from typing import Dict, Iterable, List, Set, Tuple, TypeVar
@@ -26,6 +27,11 @@ Offset = Numeric
 _ratios: Dict[Unit, Dict[Unit, Ratio]] = defaultdict(dict)
 _offsets: Dict[Unit, Dict[Unit, Offset]] = defaultdict(dict)
 
+# Conversions are planned from the tables above and the plans are memoized; defining a
+# conversion while another thread is planning one must neither change the tables
+# under it nor let it memoize what it found in the old ones
+_defining = threading.RLock()
+
 
 def equate(a: Quantity, b: Quantity) -> None:
     """Defines a conversion between one Unit and another, expressed as a ratio
@@ -37,10 +43,11 @@ def equate(a: Quantity, b: Quantity) -> None:
     a = a.unprefixed()
     b = b.unprefixed()
 
-    _ratios[a.unit][b.unit] = _div(b.magnitude, a.magnitude)
-    _ratios[b.unit][a.unit] = _div(a.magnitude, b.magnitude)
+    with _defining:
+        _ratios[a.unit][b.unit] = _div(b.magnitude, a.magnitude)
+        _ratios[b.unit][a.unit] = _div(a.magnitude, b.magnitude)
 
-    _forget_plans()
+        _forget_plans()
 
 
 def translate(scale: Unit, zero: Quantity) -> None:
@@ -52,13 +59,14 @@ def translate(scale: Unit, zero: Quantity) -> None:
     degree = zero.unit
     offset = zero.magnitude
 
-    _ratios[degree][scale] = 1
-    _ratios[scale][degree] = 1
+    with _defining:
+        _ratios[degree][scale] = 1
+        _ratios[scale][degree] = 1
 
-    _offsets[degree][scale] = -offset
-    _offsets[scale][degree] = +offset
+        _offsets[degree][scale] = -offset
+        _offsets[scale][degree] = +offset
 
-    _forget_plans()
+        _forget_plans()
 
 
 def _forget_plans() -> None:
@@ -83,7 +91,8 @@ def convert(quantity: Quantity, other_unit: Unit) -> Quantity:
 
     this = quantity.unprefixed()
 
-    plan = _plan_conversion(quantity.unit, other_unit)
+    with _defining:
+        plan = _plan_conversion(quantity.unit, other_unit)
 
     magnitude = this.magnitude
 
